@@ -236,13 +236,15 @@ Proof.
 Qed.
 
 Lemma sim_local s x t s' :
-  Rel s x -> rt_local t s = Some s' ->
+  Rel s x -> rt_local current t s = Some s' ->
   exists x', dsteps (uring (c s)) x (events s (LLocal t)) = Some x' /\ Rel s' x'.
 Proof.
-  intros HR Hs. drel HR. dx x. dst s. unfold rt_local, local_notify in Hs.
+  intros HR Hs. drel HR. dx x. dst s. unfold rt_local, local_notify, local_point in Hs.
+  cbn [v_local_wakes current] in Hs.
   unfold events, ph_rel in *. red_all. cbn [dflag dneed dph dnw owing] in *. subst xf xn.
   assert (Hz : mem 0 xo = false) by exact R_zero.
-  destruct p; try discriminate; destruct (Nat.ltb t (length sc)); try discriminate;
+  destruct p; cbn [andb] in Hs; try discriminate; try (destruct ex; cbn [andb] in Hs; try discriminate);
+    destruct (Nat.ltb t (length sc)); try discriminate;
     destruct (fl_idle fl) eqn:Hidle; inv_some Hs;
     cbn [dsteps dstep N.eqb Pos.eqb andb negb dflag dneed dph dnw owing nwakes];
     rewrite N.eqb_refl, Hz; cbn [andb negb]; rewrite ?Hidle;
